@@ -463,7 +463,7 @@ func preferFilepathJoin(m dsl.Matcher) {
 //doc:after   w.WriteString("foo")
 func preferStringWriter(m dsl.Matcher) {
 	m.Match(`$w.Write([]byte($s))`).
-		Where(m["w"].Type.Implements("io.StringWriter")).
+		Where(m["w"].Type.Implements("io.StringWriter") && m["s"].Type.Is(`string`)).
 		Suggest("$w.WriteString($s)").
 		Report(`$w.WriteString($s) should be preferred to the $$`)
 
